@@ -209,27 +209,30 @@ CHECKS = {
         note="partial in the sense of DESIGN 8: that libstdc++'s 20 algorithms ARE programs over these primitives is trusted and "
              "sampled (twin oracle), not proved; Coq 8.16.1 kernel, Print Assumptions in the evidence; g++ 12/libstdc++"),
     "C13": dict(
-        text="Coq theorems over all sizes/strides/bases and an arbitrary carrier with a commutative multiplication and an "
-             "involution: C13_gemm_criterion_sound and C13_rank_k_criterion_sound (any xGEMM resp. xSYRK/xHERK call that passes the "
-             "decidable criterion is legal, computes alpha*A*B+beta*C resp. the rank-k update of the selected triangle on the "
-             "logical contents incl. conjugations, and writes nothing else), C13_gemm_partial / C13_gemm_general_position (the "
-             "gemm_n dispatch regenerated from gemm.hpp is right at 15 call sites under named conditions and at every site except "
-             "113 201 204 205 (206 401 unless square) when all sizes >= 2), C13_gemm_conj_output, C13_gemv_criterion_sound / "
-             "C13_gemv_partial (gemv_n is right whenever the inner dimension is non-empty), C13_dot_selection_correct; the full "
-             "statement is refuted on the current tree by per-site witnesses (23 known findings: the gemm cluster, empty inner "
-             "dimension in gemv/dot, syrk/herk stride and triangle defects, trsm degenerate leading dimensions). The gemm/gemv "
-             "dispatch model is regenerated from the source on every run; the models of gemm, gemv, herk, syrk, trsm and the "
-             "level-1 routines are compared, call by call, with the interposed BLAS calls of the real library in an assertion-"
-             "enabled and an NDEBUG build; results are checked against naive loops / exact residuals on integer data with guard "
-             "cells; a sub-sample is re-evaluated by vm_compute.",
+        text="Coq theorems over all sizes/strides/bases and an arbitrary carrier (commutative multiplication, conjugation an "
+             "involutive morphism where it is used): decidable criteria proved sound for xGEMM, xGEMV, xSYRK/xHERK and -- relative to "
+             "the reference xTRSM relation -- xTRSM (C13_gemm_criterion_sound, C13_gemv_criterion_sound, C13_rank_k_criterion_sound, "
+             "C13_trsm_criterion_sound: a call that passes is legal, computes the operation on the logical contents incl. "
+             "conjugations / the selected triangle / the triangular equation, and writes nothing else); per-call-site theorems with "
+             "named conditions for the dispatch of gemm (15 sites + general position), gemv, syrk, herk and trsm (C13_gemm_partial, "
+             "C13_gemm_general_position, C13_gemm_conj_output, C13_gemv_partial, C13_syrk_partial, C13_herk_partial, C13_trsm_partial: "
+             "all nine trsm sites are right whenever their call is legal); C13_dot_selection_correct and marshalling theorems for "
+             "axpy (and its += / -= forms), scal, copy, swap, asum, nrm2, iamax (0-based index of the first maximum; -1 when empty). "
+             "The full statement is refuted on the current tree by per-site witnesses (23 known findings: the gemm cluster, empty "
+             "inner dimension in gemv/dot, syrk k/ldc, unchecked strides in syrk/herk, herk conjugate triangle, degenerate leading "
+             "dimensions). The dispatch ladders of gemm, gemv, syrk, herk and trsm are regenerated from the source on every run and "
+             "proved equal to the modelled ones (C13_dispatch_regenerated, C13_level3_dispatch_regenerated); all models are compared, "
+             "call by call, with the interposed BLAS calls of the real library in an assertion-enabled and an NDEBUG build; results "
+             "are checked against naive loops / exact residuals on integer data with guard cells; a sub-sample is re-evaluated by "
+             "vm_compute.",
         design_ref="5/C13", technique="Coq proof (decidable criteria proved sound; case analysis over the regenerated dispatch "
-                                      "ladders) + source-to-Coq translator for gemm_n/gemv_n + BLAS symbol interposition "
-                                      "differential (extracted model vs library) + direct numeric/frame monitors + vm_compute "
-                                      "cross-check of the extraction",
-        note="Reference BLAS semantics are Coq definitions; OpenBLAS is trusted to implement them (sampled by exact comparisons). "
-             "trsm and the level-1 routines other than dot have no theorem (correspondence + monitors). gemm for complex<float> and "
-             "trsm with both operands conjugated do not compile. Known findings are keyed on listed (routine, call site, kind) "
-             "pairs and can only cover cases the proved criterion does not certify. Coq 8.16.1 kernel; Print Assumptions recorded."),
+                                      "ladders) + source-to-Coq translator for the gemm/gemv/syrk/herk/trsm ladders + BLAS symbol "
+                                      "interposition differential (extracted model vs library) + direct numeric/frame monitors + "
+                                      "vm_compute cross-check of the extraction",
+        note="Reference BLAS semantics are Coq definitions (xTRSM: a relation); OpenBLAS is trusted to implement them (sampled by "
+             "exact comparisons). gemm for complex<float> and trsm with both operands conjugated do not compile. Known findings are "
+             "keyed on listed (routine, call site, kind) pairs and can only cover cases the proved criteria do not certify. "
+             "Coq 8.16.1 kernel; Print Assumptions recorded."),
     "C20": dict(
         text="Theorems (Coq, all ranks/extents/index tuples/operation sequences/iterator traces): C20_asserts_silent_on_valid (a "
              "zero-based array taken through any sequence of in-domain view operations makes every transcribed BOOST_MULTI_ASSERT/"
